@@ -406,7 +406,11 @@ def intended(root, spec, src):
 def real_target(p):
     """where the operating system ends up when it opens `p` (iterated: realpath may stop at a loop)"""
     for _ in range(5):
-        q = os.path.realpath(p)
+        try:
+            q = os.path.realpath(p)
+        except ValueError:
+            # e.g. an embedded NUL: no path the operating system accepts — certainly not one inside the root
+            return "\x00<not-a-path>"
         if q == p:
             break
         p = q
